@@ -59,7 +59,12 @@ RULE = ('case = one random search space (gen/spaces.random_space with floats, '
         'their documented preconditions), half random typed operator '
         'expressions of depth <= 4 over >> | & + - ^ * ** [] ~ with_prob '
         'if_true if_false Conditional Choice until_change for_each/flatten '
-        'global-state and plain callables; then `kpoint_extra` K-point '
+        'global-state and plain callables; where filters are library '
+        'defaults, private objects, the module constants where.ANY / where.ALL '
+        'or one user-held object given to every operator built from the '
+        'description; where callbacks of mutators may read derived state of '
+        'the DNA (named_decisions, lookups, to_dict); 6% of the applications '
+        'get sealed parents; then `kpoint_extra` K-point '
         'crossovers of the two most different parents and (in place of as many '
         'of the `apps`) `conflict_extra` seeded point-wise recombinations of the parents that conflict most on '
         'a constrained multi-choice; sometimes a full nsga2 / '
@@ -70,7 +75,7 @@ RULE = ('case = one random search space (gen/spaces.random_space with floats, '
         'constructed with some parameters, called, and brought to other '
         'parameters by 1..2 chains of rebind (one call or field by field) / '
         'attribute assignment / clone(deep or shallow, with override) / JSON '
-        'round trip, each chain followed by 2 calls that are compared with '
+        'round trip / construction of a second operator with its filter object, each chain followed by 2 calls that are compared with '
         'the same calls of a freshly constructed operator with the final '
         'parameters; 60% of the histories run on a dedicated small space with '
         '2..3 top-level permutation points and a single choice, a '
@@ -97,6 +102,9 @@ ASSUMPTIONS = [
     'conflicting parents are produced by a harness-side sampler and verified against the membership reference before use',
     'segment-wise crossovers are additionally compared with their documented cutting semantics (Segmented: exact children; KPoint: complementary children with exactly min(k, L-1) cuts)',
     'the exact set algebra of | & - ^ on duplicate-carrying operands is not judged (only routing by identity)',
+    'a sealed DNA is a valid parent (sealing is the documented way to protect an object against modification; operators never modify their inputs)',
+    'a where filter object passed to an operator is not changed by it as far as the user can see (pg.to_json of the object; that the operator adopts a parent-less object as its child is pyglove\'s documented ownership rule and is not judged)',
+    'the lookups dna[name], dna[decision point id] and dna.named_decisions of an output equal those of the DNA rebuilt from its numbers',
     'histories: an operator whose seeds were all just assigned (rebind / assignment / clone override: the object then reports the new seeds), or that was just deserialised, is a function of these seeds and its inputs, i.e. equal to a fresh operator with the same parameters; whether any other transformation (a rebind of a non-seed parameter, a clone without override) keeps or resets the state of a random generator that has already been drawn from is not documented: such a step is only judged on an operator that was not called since its seeds were assigned (both readings coincide), otherwise the following calls are made but not compared',
 ]
 
@@ -120,7 +128,27 @@ def _fit0(d):
   return float(f[0] if isinstance(f, tuple) else f)
 
 
+def _reads_derived(d):
+  """Accepts every node, after reading derived state of the DNA the node
+  belongs to (as a callback that decides by name, or by the decisions made
+  elsewhere in the DNA, does)."""
+  root = d.root
+  named = root.named_decisions
+  for dp in root.spec.decision_points[:3]:
+    root.get(dp)
+  return named is not None and root.to_dict() is not None and (
+      d.is_leaf or True)
+
+
+def _by_name(d):
+  """Named decisions only (every node if the DNA has no named decision)."""
+  return (isinstance(d.spec, pg.geno.DecisionPoint) and d.spec.name is not None
+          ) or not d.root.named_decisions
+
+
 MUT_WHERE = {
+    'derived': _reads_derived,
+    'named': _by_name,
     'any': lambda d: True,
     'numerical': lambda d: d.spec.is_numerical,
     'categorical': lambda d: d.spec.is_categorical,
@@ -129,6 +157,7 @@ MUT_WHERE = {
     'subchoice': lambda d: d.spec.is_categorical and d.spec.is_subchoice,
 }
 SWAP_WHERE = {
+    'derived': _reads_derived,
     'any': lambda d: True,
     'root': lambda d: d.parent_dna is None,
     'unsorted': lambda d: d.spec.is_categorical and not d.spec.sorted,
@@ -300,12 +329,72 @@ def show(node):
 # Description -> real operation objects.
 # --------------------------------------------------------------------------
 
-def build_where(name, seed):
+CONST_FILTERS = {'ANY': (WH.ANY, pg.to_json(WH.ANY)),
+                 'ALL': (WH.ALL, pg.to_json(WH.ALL))}
+
+
+class FilterPool:
+  """The where filter objects the user of one application holds: the module
+  constants where.ANY / where.ALL and filters created once and handed to
+  every operator that is built from the same leaf description."""
+
+  def __init__(self, share=True):
+    self.items = {}            # key -> [object, to_json at creation, holder]
+    self.reported = set()
+    self.share = share
+
+  def constant(self, which, holder):
+    obj, snap = CONST_FILTERS[which]
+    self.items.setdefault(('const', which), [obj, snap, holder])
+    return obj
+
+  def shared(self, name, seed, holder):
+    key = (name, seed)
+    if not self.share:
+      return WH.Any(k=2 if name == 'any2' else 1, seed=seed)
+    if key not in self.items:
+      obj = WH.Any(k=2 if name == 'any2' else 1, seed=seed)
+      self.items[key] = [obj, pg.to_json(obj), holder]
+    return self.items[key][0]
+
+  def check(self, ctx, when, case):
+    """Constructing / calling an operator does not change the filter object
+    the user passed (as the user sees it: its symbolic state)."""
+    for key, (obj, snap, holder) in self.items.items():
+      ctx.counters['filter_object_checks'] += 1
+      now = pg.to_json(obj)
+      if now != snap and key not in self.reported:
+        self.reported.add(key)
+        what = (f'the module constant where.{key[1]}' if key[0] == 'const'
+                else f'the filter object where.{snap!r} the user created')
+        ctx.violation('input-modified', f'{holder}:where-object',
+                      f'{what}, passed as `where` to {holder}, reads {now!r} '
+                      f'after {when} (before: {snap!r}); every other operator '
+                      f'the user gives this object to sees the new state', case)
+
+  def heal(self):
+    for obj, snap, _ in self.items.values():
+      if pg.to_json(obj) != snap:
+        try:
+          obj.rebind({k: v for k, v in snap.items() if k != '_type'},
+                     raise_on_no_change=False, notify_parents=False)
+        except Exception:  # pylint: disable=broad-except
+          pass
+
+
+_POOL = None        # the pool of the application that is being built
+
+
+def build_where(name, seed, wobj=None, holder='operator'):
   """Decision point filter of a recombinator; None = library default."""
   if name is None:
     return None
   if name == 'ALL':
+    if wobj == 'constant' and _POOL is not None:
+      return _POOL.constant('ALL', holder)
     return WH.All()
+  if name in ('any1', 'any2') and wobj == 'shared' and _POOL is not None:
+    return _POOL.shared(name, seed, holder)
   if name == 'any1':
     return WH.Any(seed=seed)
   if name == 'any2':
@@ -336,7 +425,10 @@ def build_leaf(node, recorder=None):
       kw['where'] = table[node['where']]
     return cls(seed=node['seed'], **kw)
   if op in POINTWISE or op in PERMUTATION:
-    w = build_where(node['where'], node.get('wseed'))
+    w = build_where(node['where'], node.get('wseed'), node.get('wobj'), op)
+    if (w is None and node.get('wobj') == 'constant' and op in PERMUTATION
+        and _POOL is not None):
+      w = _POOL.constant('ANY', op)     # the documented default, written out
     if w is not None:
       kw['where'] = w
     if 'seed' in node:
@@ -634,6 +726,9 @@ class Env:
 
   def __init__(self, ctx, rng, desc, spec):
     self.ctx, self.desc, self.spec = ctx, desc, spec
+    # decisions added to the workload later come from a stream of their own
+    self.aux = (ctx.case_rng(ctx.index, 'aux') if hasattr(ctx, 'case_rng')
+                else pyrandom.Random(rng.random()))
     self.multi = rng.random() < 0.3       # multi-objective fitness
     self.nobj = rng.choice([2, 3])
     self.view_cache = {}
@@ -765,8 +860,19 @@ def plain_view(v):
   return v
 
 
+def lookups_of(d):
+  """The lookups a DNA answers from derived state: decisions by name and by
+  decision point id (`dna[key]`)."""
+  out = {'named': plain_view(d.named_decisions)}
+  for dp in d.spec.decision_points:
+    out[str(dp.id)] = plain_view(d.get(dp.id, 'absent'))
+    if dp.name is not None:
+      out['name:' + dp.name] = plain_view(d.get(dp.name, 'absent'))
+  return out
+
+
 def views_of(d):
-  return [plain_view(d.to_dict(**v)) for v in VIEWS]
+  return [plain_view(d.to_dict(**v)) for v in VIEWS] + [lookups_of(d)]
 
 
 class _Quiet:
@@ -821,6 +927,12 @@ def check_dna(env, d, name, case, what='output', report=True):
   got = views_of(d)
   if got != ref:
     i = [a != b for a, b in zip(got, ref)].index(True)
+    if i >= len(VIEWS):
+      ctx.violation('misaligned', f'{name}:derived-lookup',
+                    f'{what} {d!r}: its lookups by name / decision point id '
+                    f'(dna[key], named_decisions) give {got[i]!r}, those of the '
+                    f'DNA rebuilt from its numbers {ref[i]!r}', case)
+      return 'misaligned'
     ctx.violation('misaligned', name,
                   f'{what} {d!r}: to_dict({VIEWS[i]}) = {got[i]!r}, the DNA '
                   f'rebuilt from its numbers gives {ref[i]!r}', case)
@@ -964,6 +1076,7 @@ class Run:
     self.checked = {}          # id -> object (kept alive) of checked new DNAs
     self.new_dnas = 0
     self.selected = 0
+    self.sealed = False        # the parents of the application are sealed
 
   def build(self, node):
     if node['k'] == 'leaf':
@@ -1025,6 +1138,9 @@ class Run:
                                     'recombinators.WeightedAverage')
             and mean_leaves_range(env, node, flat_in)):
           mech += ':mean-leaves-range'
+        if self.sealed and isinstance(e, pg.WritePermissionError):
+          # (one key: deriving a DNA from a sealed one is what fails)
+          mech = 'sealed-parent'
         self.fail('unexpected-exception', mech,
                   f'{show(node)} raised on inputs '
                   f'{[repr(x) for x in flat_in][:6]}:\n'
@@ -1262,6 +1378,9 @@ def tainted(ctx, leaf):
     if clause == 'nondeterministic':
       if mech == nondet_mechanism(leaf):
         return True
+    elif mech == name + ':derived-lookup':
+      if leaf.get('where') in ('derived', 'named'):   # only these callbacks
+        return True
     elif mech == name or mech.startswith(name + ':'):
       return True
   return False
@@ -1271,8 +1390,34 @@ def unlisted_count(ctx):
   return sum(r['count'] for k, r in ctx.violations.items() if k not in ctx.known)
 
 
+SEALED_P = 0.06
+
+
 def apply_expression(ctx, env, rng, expr, idxs, step, case):
-  """Runs one expression on population members `idxs`; returns a summary."""
+  """Runs one expression on population members `idxs`; returns a summary.
+  Some applications get their parents sealed (valid DNAs that the user
+  protected against modification), and every application holds the where
+  filter objects it passes to its operators."""
+  global _POOL
+  inputs = [env.pop[i] for i in idxs]
+  sealed = bool(inputs) and env.aux.random() < SEALED_P
+  pool = _POOL = FilterPool()
+  if sealed:
+    case = dict(case, sealed_parents=True)
+    ctx.counters['sealed_applications'] += 1
+    for d in inputs:
+      d.seal()
+  try:
+    return _apply_expression(ctx, env, rng, expr, idxs, step, case, pool, sealed)
+  finally:
+    _POOL = None
+    pool.heal()
+    for d in inputs:
+      if sealed:
+        d.seal(False)
+
+
+def _apply_expression(ctx, env, rng, expr, idxs, step, case, pool, sealed):
   c = ctx.counters
   inputs = [env.pop[i] for i in idxs]
   pop_ids = {id(d): i for i, d in enumerate(env.pop)}
@@ -1283,9 +1428,11 @@ def apply_expression(ctx, env, rng, expr, idxs, step, case):
   # -- probed run
   unlisted_before = unlisted_count(ctx)
   run = Run(env, case)
+  run.sealed = sealed
   ctx.label = 'build-operator'
   op1 = run.build(expr)
   ctx.label = None
+  pool.check(ctx, 'constructing the operator', case)
   seed_a, seed_b = rng.randrange(1 << 30), rng.randrange(1 << 30)
   pyrandom.seed(seed_a)
   status, out1 = 'ok', None
@@ -1296,6 +1443,7 @@ def apply_expression(ctx, env, rng, expr, idxs, step, case):
   except Abort:
     status = 'aborted'
   c['probed_runs:' + status] += 1
+  pool.check(ctx, 'a call of the operator', case)
   if status == 'inapplicable':
     c['inapplicable:' + (run.inapplicable or '?').split(':')[0]] += 1
   if status == 'ok':
@@ -1318,6 +1466,7 @@ def apply_expression(ctx, env, rng, expr, idxs, step, case):
   ctx.label = 'build-operator'
   op2 = build_bare(expr)
   ctx.label = None
+  pool.check(ctx, 'constructing a second operator with it', case)
   if is_plain(op2):
     op2 = B.make_operation_compatible(op2)
   pyrandom.seed(seed_b)
@@ -1327,7 +1476,9 @@ def apply_expression(ctx, env, rng, expr, idxs, step, case):
   except Exception as e:  # pylint: disable=broad-except
     if not lib_innermost(e):
       raise
-    ctx.violation('unexpected-exception', raising_operation(e),
+    ctx.violation('unexpected-exception',
+                  'sealed-parent' if sealed and isinstance(
+                      e, pg.WritePermissionError) else raising_operation(e),
                   f'{show(expr)} (as written, without probes) raised; the '
                   f'probed run returned normally:\n'
                   + ''.join(traceback.format_exception(e))[-2500:], case)
@@ -1340,6 +1491,7 @@ def apply_expression(ctx, env, rng, expr, idxs, step, case):
                   f'{show(expr)} at step {step} (as written, without probes) '
                   f'drew from the global random module although all its random '
                   f'parameters are seeded', case)
+  pool.check(ctx, 'a call of the second operator', case)
   c['determinism_checks'] += 1
   s1, s2 = signature(env, pop_ids, out1), signature(env, pop_ids, out2)
   if s1 != s2:
@@ -1436,6 +1588,30 @@ def gen_leaf(rng, env, op, fit_ok=True):
                 key=rng.choice(([None, None, 'pid'] if fit_ok else []) + ['len']))
   else:
     node.update(n=gen_n(rng, npop))
+  return decorate_leaf(env, node)
+
+
+def decorate_leaf(env, node):
+  """Variants of a leaf drawn from the auxiliary stream of the case (the
+  stream of the other draws is the one of the earlier versions of the check):
+  where filter objects the user holds (module constants, one object for all
+  operators built from the description) and where callbacks that read
+  derived state of the DNA."""
+  aux, op = env.aux, node['op']
+  if op in POINTWISE or op in PERMUTATION:
+    r = aux.random()
+    if node['where'] == 'ALL' and r < 0.5:
+      node['wobj'] = 'constant'
+    elif node['where'] is None and op in PERMUTATION and r < 0.3:
+      node['wobj'] = 'constant'
+    elif node['where'] in ('any1', 'any2') and r < 0.3:
+      node['wobj'] = 'shared'
+  elif op in MUTATORS:
+    r = aux.random()
+    if r < 0.12:
+      node['where'] = 'derived'
+    elif r < 0.18 and op == 'mutators.Uniform':
+      node['where'] = 'named'
   return node
 
 
@@ -1766,7 +1942,7 @@ def gen_subject(rng, env):
   that holds seeded operators (selector >> generator, generator.with_prob)."""
   npop = len(env.pop)
   everyone = list(range(npop))
-  few = everyone if npop <= 5 else sorted(rng.sample(everyone, 5))
+  few = everyone if npop <= 3 else sorted(rng.sample(everyone, 3))
   if len(permutation_elems(env.desc)) >= 2 and rng.random() < 0.25:
     fam = rng.choice(PERMUTATION)       # the where filter has to draw
   else:
@@ -1792,6 +1968,7 @@ def gen_subject(rng, env):
     # cover it)
     w = rng.choice([None, None, None, 'any1', 'any1', 'any2', 'first'])
     node.pop('wseed', None)
+    node.pop('wobj', None)
     node['where'] = w
     if w in ('any1', 'any2'):
       node['wseed'] = rng.randrange(1000)
@@ -1873,6 +2050,8 @@ def apply_updates(expr, updates):
   for i, ups in sorted(updates.items(), key=lambda kv: int(kv[0])):
     prefix, node = seed_parts(expr)[int(i)]
     node.update(ups)
+    if 'where' in ups:
+      node.pop('wobj', None)
     if 'where' in ups and not str(ups['where']).startswith('any'):
       node.pop('wseed', None)
     for key, v in ups.items():
@@ -1917,7 +2096,7 @@ def gen_history(rng, env, expr):
   documented; transformations of an operator that was not called since its
   last anchor leave it in the state of a fresh operator either way."""
   steps, cur, called = [], expr, False
-  if rng.random() < 0.35:
+  if rng.random() < 0.25:
     # (not compared: fresh against fresh is what the applications check)
     steps.append({'s': 'call', 'n': 1, 'compare': False})
     called = True
@@ -1926,7 +2105,17 @@ def gen_history(rng, env, expr):
     for j in range(rng.choice([1, 1, 1, 2])):
       anchor = called and j == 0
       kind = rng.choice(['rebind', 'rebind', 'rebind', 'assign', 'clone',
-                         'clone', 'json'])
+                         'clone', 'json', 'sibling'])
+      if kind == 'sibling':
+        if not anchor and cur['k'] == 'leaf' and cur['op'] in (
+            POINTWISE + PERMUTATION):
+          # another operator is constructed with the subject's filter object
+          chain.append({'s': 'sibling', 'kind': 'sibling',
+                        'cls': rng.choice(['recombinators.Uniform',
+                                           'recombinators.Sample'] + PERMUTATION),
+                        'seed': rng.randrange(1000)})
+          continue
+        kind = 'rebind'
       if kind == 'json':
         if not json_able(cur):
           kind = 'rebind'
@@ -1968,6 +2157,11 @@ def set_by_path(op, path, value):
 
 def transform(op, expr, step):
   """Applies one transformation step; returns (operator, description)."""
+  if step['s'] == 'sibling':
+    kw = ({'weights': WEIGHTS['ones']} if step['cls'] == 'recombinators.Sample'
+          else {})
+    _CLASSES[step['cls']](where=op.where, seed=step['seed'], **kw)
+    return op, expr
   if step['s'] == 'json':
     if step['str']:
       return pg.from_json_str(pg.to_json_str(op)), expr
@@ -2123,6 +2317,13 @@ def run_history(ctx, env, expr, steps, inputs, step0, case, quiet=False):
           state['calls'].append(st)
           state['last_out'] = flatten(out)
       continue
+    if s['s'] == 'sibling':
+      # the subject is not touched: its runs of calls go on
+      state['chain'].append((s, state['expr']))
+      c['history_steps:sibling'] += 1
+      op, cur = state['op'], state['expr']
+      guarded(f'{root}:history-sibling', lambda: transform(op, cur, s))
+      continue
     bad = flush()
     if bad:
       return bad
@@ -2171,11 +2372,17 @@ def history_application(ctx, env, rng, case):
               history=steps)
   c['histories'] += 1
   c['history_root:' + root] += 1
+  global _POOL
+  pool = _POOL = FilterPool(share=False)
   try:
     bad = run_history(ctx, env, expr, steps, inputs, step0, case)
   except HistoryEnd:
     bad = None
     c['histories_ended_early'] += 1
+  finally:
+    _POOL = None
+    pool.check(ctx, 'the history of the operator', case)
+    pool.heal()
   if bad:
     chain, detail = bad
     kind = history_kind(ctx, env, chain, inputs, step0, case) if chain else None
@@ -2248,6 +2455,7 @@ def run_case(ctx, i):
       expr = gen_leaf(rng, env, rng.choice(['recombinators.Uniform',
                                             'recombinators.Sample']), True)
       expr.pop('wseed', None)
+      expr.pop('wobj', None)
       expr['where'] = rng.choice([None, None, 'ALL'])
       idxs, step = conflict_parents(rng, env), rng.randrange(8)
       c['conflict_applications'] += 1
